@@ -21,19 +21,19 @@ import (
 
 type nopLogger struct{}
 
-func (nopLogger) SetLevel(name, level string) error                          { return nil }
-func (nopLogger) Debug(format string, a ...interface{}) error                { return nil }
-func (nopLogger) Trace(format string, a ...interface{}) error                { return nil }
-func (nopLogger) Notice(format string, a ...interface{}) error               { return nil }
-func (nopLogger) Warn(format string, a ...interface{}) error                 { return nil }
-func (nopLogger) Fatal(format string, a ...interface{}) error                { return nil }
-func (nopLogger) Debugx(logID, format string, a ...interface{}) error        { return nil }
-func (nopLogger) Tracex(logID, format string, a ...interface{}) error        { return nil }
-func (nopLogger) Noticex(logID, format string, a ...interface{}) error       { return nil }
-func (nopLogger) Warnx(logID, format string, a ...interface{}) error         { return nil }
-func (nopLogger) Fatalx(logID, format string, a ...interface{}) error        { return nil }
-func (nopLogger) Close()                                                     {}
-func (nopLogger) Dropped(i int) uint64                                       { return 0 }
+func (nopLogger) SetLevel(name, level string) error                    { return nil }
+func (nopLogger) Debug(format string, a ...interface{}) error          { return nil }
+func (nopLogger) Trace(format string, a ...interface{}) error          { return nil }
+func (nopLogger) Notice(format string, a ...interface{}) error         { return nil }
+func (nopLogger) Warn(format string, a ...interface{}) error           { return nil }
+func (nopLogger) Fatal(format string, a ...interface{}) error          { return nil }
+func (nopLogger) Debugx(logID, format string, a ...interface{}) error  { return nil }
+func (nopLogger) Tracex(logID, format string, a ...interface{}) error  { return nil }
+func (nopLogger) Noticex(logID, format string, a ...interface{}) error { return nil }
+func (nopLogger) Warnx(logID, format string, a ...interface{}) error   { return nil }
+func (nopLogger) Fatalx(logID, format string, a ...interface{}) error  { return nil }
+func (nopLogger) Close()                                               {}
+func (nopLogger) Dropped(i int) uint64                                 { return 0 }
 
 // Quiet replaces Gaea's global console logger (debug level) by a no-op one.
 func Quiet() { log.SetGlobalLogger(nopLogger{}) }
